@@ -28,14 +28,14 @@ CONFIG = {
              "1e-300, 1.5e+20, negative, mixed) x root-edge length x rooting {True,False,None} x weights x option "
              "pair (a)-(f) x translate_tree_taxa (NEXUS) x entry point (TreeList/Tree as_string/write(path) -> "
              "TreeList.get/Tree.get incl. tree_offset; Newick/NEXUS: 1 in 4 read into the original namespace). Sweep: every label of length <= 2 (quick) / <= 3 (thorough) over a "
-             "45-character alphabet as a leaf of a three-leaf tree (length <= 2 also as an internal node label) x "
+             "45-character alphabet as a leaf of a three-leaf tree (length 1 / <= 2 also as an internal node label) x "
              "formats x label option pairs (a)-(d) x translate. "
              "Non-trivial = a label with a character outside [A-Za-z0-9], or a non-default option pair, or a length "
              "written in scientific notation; distinct = (format, option pair, translate, label multiset, shapes)."),
     "exhaustive": {"quick": False, "thorough": False},
     "exhaustive_note": {"quick": "sweep: all 1 892 labels of length <= 2 over the 45-character alphabet (no leading/"
-                                 "trailing whitespace), as leaf taxon label and as internal node label, x 13 format/"
-                                 "option combinations",
+                                 "trailing whitespace) as leaf taxon label (length 1 also as internal node label) x 13 "
+                                 "format/option combinations",
                         "thorough": "sweep: all 85 097 labels of length <= 3 over the 45-character alphabet (no "
                                     "leading/trailing whitespace) as leaf taxon label (length <= 2 also as internal "
                                     "node label) x 13 format/option combinations"},
@@ -288,6 +288,10 @@ def tokens_in_statement(case, tree_indices):
 
 def known_predicate(case, written):
     """Narrow input predicates of listed findings; returns a key suffix or None.
+
+    (The defect behind this predicate is repaired by the `fix:` commit "tree statements and TAXLABELS treat quoted
+    ( ) , : ; tokens as labels"; the predicate stays so that, on a tree without that commit, the failure can be listed
+    in known_findings.json under a key that cannot hide any other failure.)
 
     label_is_single_structural_char: Newick/NEXUS only; a label that is exactly one of ( ) , : ; occurs as a token of
     a written tree statement (taxon labels only when no TRANSLATE table replaces them), or (NEXUS) the label ';' is in
@@ -617,7 +621,7 @@ SUBCHECKS = {"random": check_case, "sweep": check_sweep}
 def run(ctx):
     quick = ctx.tier == "quick"
     # the sweep is deterministic and cheap: run it first so that a loaded machine cannot starve it
-    runner.run_items(ctx, "sweep", sweep_items(2, 2) if quick else sweep_items(3, 2), check_sweep)
+    runner.run_items(ctx, "sweep", sweep_items(2, 1) if quick else sweep_items(3, 2), check_sweep)
     total = 6400 if quick else 64000
     maxl = 8 if quick else 20
     runner.run_given(ctx, "random", cases(maxl), check_case, total // ctx.nshards)
